@@ -20,7 +20,7 @@ ASSUMPTIONS = ["vf/vlog.py implements IEEE 1364-2005 5.4/5.5/9.5 for the emitted
                "Engine A == litex.gen.sim.core (validated against the real simulator; every divergence is replayed on the real simulator)",
                "one-step equivalence from arbitrary COMMON state: registers are identified through the real ConvOutput.ns names, memory words index by index"]
 BOUNDS = {"quick": "expression grammar: all depth-1 programs over 8 leaves in 6 contexts + depth-2 programs with 2 sibling leaves in 3 contexts (~18 000 programs); statement grammar: 18 templates x 24 operand pairs x comb/sync (~800); "
-                   "corpus of 42 real cores; memory matrix: 3 modes x we-granularity x async/sync/re x init at depth 4 and 5, 2-port and 2-clock variants (55 designs); every state and input of one step per program",
+                   "corpus of 42 real cores + 4 whole SoCCore(cpu_type=None) netlists (UART, timer, RAM, CSR banks, bus interconnect; ~1700 lines of Verilog each); memory matrix: 3 modes x we-granularity x async/sync/re x init at depth 4 and 5, 2-port and 2-clock variants (55 designs); every state and input of one step per program",
           "thorough": "expression grammar: depth-2 programs with 6 sibling leaves in all 6 contexts (~74 000 programs); statement grammar: 18 templates x 144 operand pairs x comb/sync/second clock domain (~7 500); corpus and memory matrix as quick"}
 OUTSIDE = "expressions deeper than 2 operators outside the corpus; Instances/tristates/DDR specials (not Verilog-text semantics of the printer); x/z propagation; run-to-run name stability (C02)"
 FUNCS = ["litex.gen.fhdl.verilog.convert", "litex.gen.fhdl.expression._generate_expression", "litex.gen.fhdl.expression._generate_operator", "litex.gen.fhdl.expression._generate_slice",
@@ -867,6 +867,23 @@ def _corpus():
         from litex.soc.interconnect.stream import EndpointDescription
         return wrap(Depacketizer(EndpointDescription([("data", 16)]), EndpointDescription([("data", 16)], [("a", 16), ("b", 8)]), h))
     C["depacketizer"] = depacketizer
+
+    def soc(cfg):
+        def mk():
+            from migen import ClockDomain
+            from vf.props import c14
+            s_, ext = c14.build_soc(cfg)
+
+            class Top(Module):
+                def __init__(self):
+                    self.clock_domains.cd_sys = ClockDomain()
+                    self.submodules.soc = s_
+            return Top()
+        return mk
+    C["soc_wishbone_csr32"] = soc(dict())
+    C["soc_wishbone_csr8"] = soc(dict(csr_data_width=8))
+    C["soc_axilite_csr32_little"] = soc(dict(bus_standard="axi-lite", csr_ordering="little"))
+    C["soc_wishbone_crossbar_paging400"] = soc(dict(bus_interconnect="crossbar", csr_paging=0x400))
 
     # memory port-mode matrix
     def memmod(depth, mode, we_gran, async_read, has_re, init, two=False, clock2=None):
